@@ -84,6 +84,7 @@ def run(ctx, rep):
     fallible_contract(F, rep)
     index_sites(F, rep)
     len_minus(ctx, F, rep)
+    depth_bound(F, rep)
     rep.extra["analysis_rounds"] = fl.rounds
     rep.extra["hand_assembled_option_unwraps_counted_not_judged"] = getattr(fl, "uncounted", 0)
     # K4 panics outside the clause: counted
@@ -501,3 +502,82 @@ def len_minus(ctx, F, rep):
                 rep.ob("C16.len-minus", inst, "violated", "no test of the length dominates the subtraction: an input that makes the collection shorter than %s "
                        "crashes the compiler (`attempt to subtract with overflow`)" % k.get("int"), st.get("sp"), fn=f.path, key=key)
     rep.floor("C16.len-minus length subtractions in the compiler", n, 1)
+
+
+
+def depth_bound(F, rep):
+    """`compile` never dies of a stack overflow only if something bounds how deep its recursions go, and every recursion in the compiler
+    (the generated recursive-descent parser, the AST builders, type checking, code generation) follows the nesting of the input text.  The
+    first of them to run is the parser: if it refuses inputs nested deeper than some D (pest's call limit) or grows its stack on demand
+    (stacker), every later recursion is bounded by D as well.  The rule finds the recursive strongly connected component of the generated
+    parser in the crate's call graph and looks for either guard anywhere in the crate; with neither, nesting depth is bounded by nothing but
+    the size of the input, and a few kilobytes of `(` overflow the stack."""
+    import sys as _sys
+    fns = {f.path: f for f in F.crates["compiler"].fns}
+    adj = {}
+    for pth, f in fns.items():
+        out = set()
+        for c in f.calls():
+            for nm in [c.callee()] + sorted(c.names):
+                if nm in fns:
+                    out.add(nm)
+        for g in F.closures_of(f):
+            out.add(g.path)
+        adj[pth] = out
+    # iterative Tarjan
+    index, low, on, stack, comps = {}, {}, set(), [], []
+    counter = [0]
+    for root in adj:
+        if root in index:
+            continue
+        work = [(root, iter(sorted(adj[root])))]
+        index[root] = low[root] = counter[0]
+        counter[0] += 1
+        stack.append(root)
+        on.add(root)
+        while work:
+            v, it = work[-1]
+            adv = False
+            for w in it:
+                if w not in index:
+                    index[w] = low[w] = counter[0]
+                    counter[0] += 1
+                    stack.append(w)
+                    on.add(w)
+                    work.append((w, iter(sorted(adj.get(w, ())))))
+                    adv = True
+                    break
+                elif w in on:
+                    low[v] = min(low[v], index[w])
+            if adv:
+                continue
+            work.pop()
+            if work:
+                u = work[-1][0]
+                low[u] = min(low[u], low[v])
+            if low[v] == index[v]:
+                comp = []
+                while True:
+                    w = stack.pop()
+                    on.discard(w)
+                    comp.append(w)
+                    if w == v:
+                        break
+                if len(comp) > 1 or v in adj.get(v, ()):
+                    comps.append(comp)
+    parser_sccs = [c for c in comps if any("::parse::rules::visible::" in x for x in c)]
+    rep.floor("C16.depth recursive components of the generated parser", len(parser_sccs), 1)
+    rep.extra["recursive_components_in_compiler"] = sorted(((len(c), sorted(mir.short(x) for x in c)[0]) for c in comps), reverse=True)[:12]
+    guards = []
+    for f in F.all_fns():
+        for c in f.calls():
+            n = c.callee()
+            if n.startswith("stacker::") or n.endswith("pest::set_call_limit") or "set_call_limit" in n:
+                guards.append("%s in %s" % (mir.short(n), mir.short(f.path)))
+    big = max(parser_sccs, key=len)
+    rep.ob("C16.depth", "the nesting depth the recursive-descent parser follows is bounded (call limit) or the stack grows with it (stacker)",
+           "ok" if guards else "violated",
+           ("guards: %s (whether the bound fits the stack is not decided)" % guards[:3]) if guards else
+           "the generated parser is one recursive component of %d functions, the AST builders, type checker and code generator recurse over its output "
+           "(%d recursive components in the crate), and nothing limits depth: 1500 nested parentheses (3 kB) end in `thread main has overflowed its stack`"
+           % (len(big), len(comps)), None, fn="compiler::parser::Parser", key="C16.depth|parser-recursion")
